@@ -18,6 +18,7 @@ type provProfile struct {
 	withKeys                                                               bool
 	conns                                                                  int
 	topn                                                                   bool
+	lowPower                                                               bool // powers 1..3: many ties
 }
 
 const sec = int64(1000000000)
@@ -50,6 +51,17 @@ func (p *provRunner) deadlines() []int64 {
 		add(s["prune"])
 	}
 	return out
+}
+
+func (p *provRunner) unjailedCount() int {
+	n := 0
+	for _, e := range splitNE(p.prevG["stk"]) {
+		f := strings.Split(e, ":")
+		if len(f) >= 4 && f[3] == "0" && len(f[1]) >= 7 {
+			n++
+		}
+	}
+	return n
 }
 
 func (p *provRunner) now() int64 { v, _ := strconv.ParseInt(p.prevG["now"], 10, 64); return v }
@@ -176,9 +188,13 @@ func (p *provRunner) genOne(r *Rng, prof provProfile) string {
 		s := fmt.Sprintf("create s=%s chain=%s", p.users(r), chain)
 		if r.chance(75) {
 			s += fmt.Sprintf(" init=1 spawn=%d", p.genSpawn(r))
-			if prof.conns > 0 && r.chance(25) {
+			if prof.conns > 0 && r.chance(35) {
 				k := r.intn(prof.conns)
 				s += fmt.Sprintf(" conn=connection-%d", 900+k)
+				if r.chance(85) {
+					// the chain id must match the chain id of the connection's client for the launch to succeed
+					s = strings.Replace(s, "chain="+chain, fmt.Sprintf("chain=pre%d-1", k), 1)
+				}
 			}
 		}
 		if r.chance(60) {
@@ -217,6 +233,18 @@ func (p *provRunner) genOne(r *Rng, prof provProfile) string {
 		return fmt.Sprintf("remove s=%s c=%s", sender, c)
 	case 3: // opt in / out
 		c := p.pickConsumer(r)
+		if r.chance(60) {
+			// prefer consumers that are waiting for their spawn time, so that launches succeed
+			var init []string
+			for _, id := range p.consumerIds() {
+				if p.prev[id]["phase"] == "2" {
+					init = append(init, id)
+				}
+			}
+			if len(init) > 0 {
+				c = init[r.intn(len(init))]
+			}
+		}
 		v := r.intn(prof.nv)
 		signer := v
 		if r.chance(8) {
@@ -242,6 +270,10 @@ func (p *provRunner) genOne(r *Rng, prof provProfile) string {
 		v := r.intn(prof.nv)
 		switch r.intn(8) {
 		case 0:
+			// environment assumption A-STK-POS: the bonded set never becomes empty
+			if p.unjailedCount() <= 2 {
+				return fmt.Sprintf("stkunjail v=%d", v)
+			}
 			return fmt.Sprintf("stkjail v=%d", v)
 		case 1:
 			return fmt.Sprintf("stkunjail v=%d", v)
@@ -249,11 +281,14 @@ func (p *provRunner) genOne(r *Rng, prof provProfile) string {
 			return "stkend"
 		default:
 			tok := (1 + r.i64n(9)) * 1000000
+			if prof.lowPower {
+				tok = (1 + r.i64n(3)) * 1000000
+			}
 			if r.chance(40) {
 				// equal power, different tokens
 				tok += r.i64n(1000000)
 			}
-			if r.chance(5) {
+			if r.chance(5) && p.unjailedCount() > 2 {
 				tok = r.i64n(1000000) // below one unit of power
 			}
 			return fmt.Sprintf("stk v=%d tokens=%d", v, tok)
@@ -284,9 +319,69 @@ func (p *provRunner) genKey(r *Rng, prof provProfile) int {
 	return 32 + r.intn(10)
 }
 
+// channel handshake attempts: mostly on the client of a launched consumer, with every parameter
+// occasionally wrong, repeated attempts, and confirmations
 func (p *provRunner) genChan(r *Rng, prof provProfile) string {
-	// find a launched consumer without channel and its client's connection
-	return ""
+	p.chanSeq++
+	// pending TRYOPEN channels get confirmed
+	if len(p.tryChans) > 0 && r.chance(45) {
+		i := r.intn(len(p.tryChans))
+		ch := p.tryChans[i]
+		if r.chance(80) {
+			p.tryChans = append(p.tryChans[:i], p.tryChans[i+1:]...)
+		}
+		return "chanconfirm ch=" + ch
+	}
+	var clients []string
+	for _, id := range p.consumerIds() {
+		if c := p.prev[id]["client"]; c != "" && c != "-" {
+			clients = append(clients, c)
+		}
+	}
+	client := "07-tendermint-77"
+	if len(clients) > 0 && r.chance(90) {
+		client = clients[r.intn(len(clients))]
+	} else if prof.conns > 0 {
+		client = fmt.Sprintf("07-tendermint-%d", 900+r.intn(prof.conns))
+	}
+	conn, ok := p.connOf[client]
+	if !ok {
+		if p.connOf == nil {
+			p.connOf = map[string]string{}
+		}
+		conn = fmt.Sprintf("connection-%d", len(p.connOf))
+		if strings.HasPrefix(client, "07-tendermint-9") {
+			var n int
+			fmt.Sscanf(client, "07-tendermint-%d", &n)
+			conn = fmt.Sprintf("connection-%d", n)
+			p.connOf[client] = conn
+		} else {
+			p.connOf[client] = conn
+			return fmt.Sprintf("mkconn conn=%s client=%s", conn, client)
+		}
+	}
+	order, port, cport, ver, hops := "ORDERED", "provider", "consumer", "1", conn
+	switch r.intn(14) {
+	case 0:
+		order = "UNORDERED"
+	case 1:
+		port = "transfer"
+	case 2:
+		cport = "provider"
+	case 3:
+		ver = "2"
+	case 4:
+		hops = conn + "," + conn
+	case 5:
+		hops = "connection-404"
+	case 6:
+		hops = ""
+	case 7:
+		return fmt.Sprintf("chaninit ch=channel-%d port=provider cport=consumer order=ORDERED ver=1 hops=%s", p.chanSeq, conn)
+	}
+	ch := fmt.Sprintf("channel-%d", p.chanSeq)
+	p.tryChans = append(p.tryChans, ch)
+	return fmt.Sprintf("chantry ch=%s port=%s cport=%s order=%s ver=%s hops=%s", ch, port, cport, order, ver, hops)
 }
 
 func (p *provRunner) genSlash(r *Rng, prof provProfile) string { return "" }
@@ -310,6 +405,9 @@ func genProv(prof provProfile) func(r *Rng, run Runner, n int, tier string) {
 		toks := make([]string, prof.nv)
 		for i := range toks {
 			t := (1 + r.i64n(9)) * 1000000
+			if prof.lowPower {
+				t = (1 + r.i64n(3)) * 1000000
+			}
 			if r.chance(40) {
 				t += r.i64n(999999)
 			}
@@ -338,4 +436,11 @@ func init() {
 	life := provProfile{name: "lifecycle", nv: 5, maxvals: 4, M: 3, epoch: 2, unb: 20 * sec,
 		wCreate: 14, wUpdate: 18, wRemove: 6, wOpt: 16, wAssign: 4, wStake: 8, wBlock: 22, wMisc: 2, wParams: 2, topn: true}
 	streams["lifecycle"] = StreamDef{New: func(t *Trace) Runner { return newProvRunner(t) }, Gen: genProv(life)}
+	// epochs: few lifecycle changes, many staking changes with frequent power ties at the M boundary
+	ep := provProfile{name: "epoch", nv: 7, maxvals: 6, M: 3, epoch: 1, unb: 20 * sec, lowPower: true,
+		wCreate: 6, wUpdate: 14, wRemove: 1, wOpt: 22, wAssign: 8, wStake: 24, wBlock: 24, wParams: 2, topn: true}
+	hs := provProfile{name: "handshake", nv: 4, maxvals: 4, M: 3, epoch: 2, unb: 10 * sec, conns: 2,
+		wCreate: 14, wUpdate: 10, wRemove: 5, wOpt: 18, wAssign: 2, wStake: 4, wBlock: 22, wChan: 25, topn: false}
+	streams["handshake"] = StreamDef{New: func(t *Trace) Runner { return newProvRunner(t) }, Gen: genProv(hs)}
+	streams["epoch"] = StreamDef{New: func(t *Trace) Runner { return newProvRunner(t) }, Gen: genProv(ep)}
 }
